@@ -69,7 +69,7 @@ def strip_lean_comments(text):
 def reachable_lean_files():
     """the files of the deliverable: everything imported (transitively) from the library
     root and the driver roots; work-in-progress files that nothing imports are not part of it"""
-    roots = [f for f in ("Wormhole.lean", "Main.lean", "DbMain.lean", "RegMain.lean", "Wormhole/Tie/All.lean", "Wormhole/Tie/WsReject.lean", "Wormhole/Tie/WsBody.lean", "Wormhole/Tie/WsTop.lean") if os.path.exists(os.path.join(LEAN, f))]
+    roots = [f for f in ("Wormhole.lean", "Main.lean", "DbMain.lean", "RegMain.lean", "Wormhole/Tie/All.lean", "Wormhole/Tie/WsReject.lean", "Wormhole/Tie/WsBody.lean", "Wormhole/Tie/WsTop.lean", "Wormhole/Tie/Summ.lean") if os.path.exists(os.path.join(LEAN, f))]
     seen, todo = set(), list(roots)
     while todo:
         f = todo.pop()
@@ -408,9 +408,10 @@ def main():
         import sqltie
         st = sqltie.run()
         sw = sqltie.run_ws()
-        print("setup: driver_ok=%s proofs_ok=%s sql_tie=%s (%d statements, %d/%d theorems) ws_tie=%s (%d/%d theorems)" % (
+        su = sqltie.run_summ()
+        print("setup: driver_ok=%s proofs_ok=%s sql_tie=%s (%d statements, %d/%d theorems) ws_tie=%s (%d/%d theorems) summ_tie=%s (%d/%d)" % (
             b["driver_ok"], b["proofs_ok"], st["status"], st["statements"], st["discharged"], st["theorems"],
-            sw["status"], sw["discharged"], sw["theorems"]))
+            sw["status"], sw["discharged"], sw["theorems"], su["status"], su["discharged"], su["theorems"]))
         sys.exit(0 if b["driver_ok"] else 2)
     pid = a.pid
     if pid not in PROPS:
@@ -499,15 +500,23 @@ def main():
         except Exception as e:
             ws_tie = {"status": "not-run", "detail": "%s: %s" % (type(e).__name__, e)}
         cov["ws_validation_tie"] = ws_tie
+        try:
+            summ_tie = sqltie.run_summ()
+        except Exception as e:
+            summ_tie = {"status": "not-run", "detail": "%s: %s" % (type(e).__name__, e)}
+        cov["usage_summary_tie"] = summ_tie
+        ties_untied = []
+        if sql_tie["status"] != "tied":
+            ties_untied.append("SQL statements of server.py (%s: %s)" % (
+                sql_tie["status"], "; ".join(sql_tie.get("functions_untied", [])) or sql_tie.get("detail", "")[:200]))
         if ws_tie["status"] != "tied":
-            log("NOTE: the static tie of the validation layer of server_websocket.py is %s (%s); widening the search on the code" % (
-                ws_tie["status"], ws_tie.get("detail", "")[:300]))
-            if sql_tie["status"] == "tied":
-                sql_tie = dict(sql_tie, status="ws-" + ws_tie["status"])     # (widen the search below)
-        if sql_tie["status"] not in ("tied",) and not sql_tie["status"].startswith("ws-"):
-            log("NOTE: the static SQL tie is %s (%s): the model's relational primitives are no longer known statically to "
-                "mean the statements of server.py; widening the search on the code" % (
-                    sql_tie["status"], "; ".join(sql_tie.get("functions_untied", [])) or sql_tie.get("detail", "")[:300]))
+            ties_untied.append("onMessage / handle_* of server_websocket.py (%s: %s)" % (ws_tie["status"], ws_tie.get("detail", "")[:200]))
+        if summ_tie["status"] != "tied":
+            ties_untied.append("usage summaries of server.py (%s: %s)" % (summ_tie["status"], summ_tie.get("detail", "")[:200]))
+        for u in ties_untied:
+            log("NOTE: static tie not established on this tree - %s - the hand-written model of that part is tied by differential "
+                "execution only; widening the search on the code" % u)
+        cov["static_ties_untied"] = ties_untied
     if eng is not None:
         # properties decided by their own engine (database files)
         er = eng(pid, tier, seed)
@@ -563,7 +572,7 @@ def main():
             profs = [x for x in profs if x[0] in only.split(",")]     # (debugging aid: restrict to named profiles)
         work = []
         rng = random.Random(seed * 7919 + int(hashlib.sha1(pid.encode()).hexdigest()[:6], 16))
-        widen = 3 if (sql_tie is not None and sql_tie["status"] != "tied" and tier == "quick") else 1
+        widen = 3 if (sql_tie is not None and cov.get("static_ties_untied") and tier == "quick") else 1
         for name, prof, n in profs:
             for i in range(n if prof.get("_exhaustive") else n * widen):
                 work.append((pid, rng.randrange(1 << 30), name, prof, i))
